@@ -22,7 +22,7 @@ ASSUME = ["which cells are selected is C02; geometric quality of the ordering is
 
 
 def run(prog, rep):
-    rep.explanation = EXPL
+    rep.explanation = EXPL + ' C15.graph: the traversal of the line sorter runs on the connectivity graph of a neighbour search over all points, from which no edge is removed in place.'
     rep.assumptions = ASSUME
     rep.part(compute, prog, rep)
     rep.part(sorter, prog, rep)
